@@ -7,4 +7,11 @@ func rtSpinReset()                            {}
 func rtSpinBreaks() uint64                    { return 0 }
 func rtTrace() (uint64, uint64)               { return 0, 0 }
 
+func rtNonBubble() (uint64, string) { return 0, "" }
+
+func rtDraws() (uint64, uint64) { return 0, 0 }
+
+func rtEvLogOn()        {}
+func rtEvLog() []uint64 { return nil }
+
 const rtEnabled = false
